@@ -758,7 +758,13 @@ struct Cell {
     explicit Cell(bool exclusive): magic(MAGIC), excl(exclusive) { born(); }
     Cell(const Cell& o): magic(MAGIC)
     {
-        maybe_throw(1);  // before anything is counted: an object whose constructor throws never existed
+        try {
+            maybe_throw(1);  // before anything is counted: an object whose constructor throws never existed
+        }
+        catch (...) {
+            magic = DEAD;  // ... and its storage holds no object (it may have held one that was destroyed to make room)
+            throw;
+        }
         born();
         o.enter(false);
         copy_from(o);
